@@ -56,6 +56,9 @@ type schedWorld struct {
 	last    scheduler.StepState
 	hasLast bool
 	retries int
+	// a dispatch gave up (DispatchErr) since the last Step: with D21 repaired the scheduler has remembered to restart
+	// the timer in the prologue of its next Step, so a Step is worth calling
+	pendingRestart bool
 }
 
 var errTransient = errors.New("transient repository failure")
@@ -546,7 +549,7 @@ func (w *schedWorld) mustRetry() bool {
 }
 
 func (w *schedWorld) needsRestart() bool {
-	if w.target.LastTimerUpdateError() != nil {
+	if w.target.LastTimerUpdateError() != nil || w.pendingRestart {
 		return true
 	}
 	return w.hasLast && (w.last.State() == scheduler.NextTask || w.last.State() == scheduler.TimerUpdateError) && w.last.Err() != nil
@@ -593,6 +596,12 @@ func (w *schedWorld) callStep(retry bool, inj map[int][]string) {
 		}
 	}
 	w.stripMarkers()
+	if !retry {
+		w.pendingRestart = false
+	}
+	if s.State() == scheduler.DispatchErr {
+		w.pendingRestart = true
+	}
 	w.last, w.hasLast = s, true
 	w.log(retLine(s))
 	w.stLine()
@@ -838,9 +847,96 @@ func schedExec(h sim.History) []string {
 			w.complete(mustUnStr(tok[1]), tok[2])
 		case "quiesce":
 			w.quiesce()
+		case "coreplan":
+			// corefault family: faults of the CORE repository's MarkAsDispatched, call by call
+			if w.core != nil && len(tok) > 1 {
+				w.core.markPlan = strings.Split(tok[1], ",")
+				w.log("coreplan " + tok[1])
+			}
 		}
 	}
 	return append(w.out, "end")
+}
+
+// cmdCoreFault: the real Scheduler over the observable repository (hook timer, in-memory core) where the CORE's
+// MarkAsDispatched fails transiently below the wrapper — exhaustively over a small scenario family: 1..3 tasks (all due
+// together / staggered / one of them later), 1..2 dispatcher slots, every assignment of {no fault, error without
+// effect, error after effect} to the first core-level MarkAsDispatched calls with at least one fault. The driver then
+// runs to quiescence (retrying every failed step; faults have stopped). Judged by the monitor of Gk/DrvCore.lean.
+func cmdCoreFault(args []string) {
+	var c common
+	fs := flag.NewFlagSet("corefault", flag.ExitOnError)
+	c.register(fs)
+	fs.Parse(args)
+	os.MkdirAll(c.scratch, 0o755)
+	rep := &Report{Family: "corefault", Seed: c.seed, Dist: map[string]int{}, Config: map[string]string{}}
+	var hists []sim.History
+	if c.replay != "" {
+		h, err := loadReplay(c.replay)
+		if err != nil {
+			fmt.Fprintln(os.Stderr, "gkh:", err)
+			os.Exit(2)
+		}
+		hists = []sim.History{h}
+	} else {
+		offs := map[string][]time.Duration{
+			"together":  {5 * time.Second, 5 * time.Second, 5 * time.Second},
+			"staggered": {5 * time.Second, 6 * time.Second, 7 * time.Second},
+			"one-later": {5 * time.Second, 5 * time.Second, 20 * time.Minute},
+		}
+		for _, pat := range []string{"together", "staggered", "one-later"} {
+			for n := 1; n <= 3; n++ {
+				for workers := 1; workers <= 2; workers++ {
+					var plans [][]string
+					var rec func(cur []string)
+					rec = func(cur []string) {
+						if len(cur) == n+1 {
+							for _, k := range cur {
+								if k != "-" {
+									plans = append(plans, append([]string{}, cur...))
+									return
+								}
+							}
+							return
+						}
+						for _, k := range []string{"-", "cb", "ca"} {
+							rec(append(cur, k))
+						}
+					}
+					rec(nil)
+					for _, plan := range plans {
+						h := sim.History{Header: fmt.Sprintf("new sched %d", workers)}
+						for i := 0; i < n; i++ {
+							p := def.TaskUpdateParam{WorkId: option.Some("w"), ScheduledAt: option.Some(T0.Add(offs[pat][i]))}
+							h.Ops = append(h.Ops, fmt.Sprintf("u add - t%d %s", i+1, proto.Param(p)))
+						}
+						h.Ops = append(h.Ops, "coreplan "+strings.Join(plan, ","), "adv "+proto.Time(T0.Add(10*time.Second)), "quiesce")
+						hists = append(hists, h)
+						rep.Dist["tasks:"+strconv.Itoa(n)]++
+						rep.Dist["pattern:"+pat]++
+					}
+				}
+			}
+		}
+		rep.Exhaustive = true
+	}
+	traces := make([][]string, len(hists))
+	parallelDo(&c, len(hists), func(i int) { traces[i] = schedExec(hists[i]) })
+	for i, h := range hists {
+		rep.Ops += len(h.Ops)
+		for _, l := range traces[i] {
+			if strings.HasPrefix(l, "ret ") {
+				rep.Dist["state:"+strings.Fields(l)[1]]++
+			}
+		}
+	}
+	rep.Histories = len(hists)
+	rep.Distinct = distinctCount(hists)
+	for i := 0; i < len(hists) && i < 2; i++ {
+		rep.Samples = append(rep.Samples, hists[len(hists)-1-i])
+	}
+	analyse(&c, "corefault", hists, traces, schedExec, rep)
+	writeReport(&c, rep)
 }
 
 func mustUnStr(s string) string { v, _ := proto.UnStr(s); return v }
